@@ -544,6 +544,22 @@ fn check_alias(ev: &mut Ev, model: &mut Model, stream: &str, a: &AliasAst) -> Op
     let wf = model.ask(&format!("wf-alias {sx}")) == "1";
     ev.hit(if wf { "types:ast-wellformed" } else { "types:ast-illformed" });
     if wf {
+        // C18Types.alias_statement_layouts evaluated on the implementation: the formatted statement is
+        // the flat line or (union right-hand side only) the one-member-per-line layout, plus a newline
+        let flat = model.ask(&format!("flat-alias {sx}")).strip_prefix("s:").map(unhx).map(|t| t + "\n");
+        let broken = model.ask(&format!("broken-alias {sx}")).strip_prefix("s:").map(unhx).map(|t| t + "\n");
+        if flat.as_deref() == Some(text.as_str()) {
+            ev.hit("types:layout-flat");
+        } else if broken.as_deref() == Some(text.as_str()) {
+            ev.hit("types:layout-broken");
+        } else {
+            ev.violation(
+                "types kind=layout-not-one-of-two",
+                &format!("format_program on the well-formed alias {sx} gives {text:?}: neither the flat line {flat:?} nor the broken layout {broken:?} (stream {stream})"),
+                json!({"broken": "C18Types.alias_statement_layouts evaluated on the implementation", "alias": sx, "text": text, "flat": flat, "broken_layout": broken, "stream": stream}),
+                false,
+            );
+        }
         let want = sx.clone();
         let ok = matches!(&imp, Impl::Ok { first_alias: Some(x), statements: 1 } if *x == want);
         if ok {
